@@ -211,6 +211,16 @@ Fixpoint ins_asc (x : row) (l : list row) : list row :=
 Definition sort_asc (l : list row) : list row := fold_right ins_asc [] (rev l).
 (* rev + strict test: equal keys end up in the original order *)
 
+(** ORDER BY tsb DESC as sqlite's sorter does it: stable, rows with EQUAL tsb stay in
+    scan (rowid) order (observed with the bundled sqlite and with 3.40; SQL leaves it
+    unspecified -- the theorems about order do not rely on it, the refutation does). *)
+Fixpoint ins_desc (x : row) (l : list row) : list row :=
+  match l with
+  | [] => [x]
+  | y :: l' => if (r_tsb y <? r_tsb x)%Z then x :: l else y :: ins_desc x l'
+  end.
+Definition sort_desc (l : list row) : list row := fold_right ins_desc [] (rev l).
+
 Definition take_limit (lim : Z) (l : list row) : list row :=
   if (lim <? 0)%Z then l else firstn (Z.to_nat lim) l.
 
@@ -218,8 +228,15 @@ Definition take_limit (lim : Z) (l : list row) : list row :=
     [limit] rows are selected (ORDER BY tsb DESC LIMIT n) and printed oldest first. *)
 Definition db_list (rows : list row) (pattern session dir : str) (o : lopts) : list row :=
   let m := filter (row_matches pattern session dir o) rows in
-  let s := sort_asc m in
-  if o_asc o then take_limit (o_limit o) s else rev (take_limit (o_limit o) (rev s)).
+  if o_asc o then take_limit (o_limit o) (sort_asc m) else rev (take_limit (o_limit o) (sort_desc m)).
+
+(** The table is kept in rowid = submission order.  The hypothesis under which listing by
+    time is listing by submission: tsb strictly increasing along the table. *)
+Fixpoint incrb (l : list row) : bool :=
+  match l with
+  | [] => true
+  | a :: t => forallb (fun b => (r_tsb a <? r_tsb b)%Z) t && incrb t
+  end.
 
 (* ------------------------------------------------------------------ main loop: what is recorded *)
 Definition starts_with_space (s : str) : bool := match s with c :: _ => c =? c_space | [] => false end.
